@@ -20,6 +20,7 @@ import (
 	"math/rand"
 	"os"
 	"runtime"
+	"sort"
 	"sync"
 	"sync/atomic"
 	"time"
@@ -60,7 +61,7 @@ func c17Call(f func()) bool {
 // ---------------------------------------------------------------- labels
 
 type c17Label struct {
-	Op string // uh dl sc cb cs ca ib cr en qp qr
+	Op string // uh dl sc cb cs csc ca ib cr en qp qr qu
 	K  int    // client index (sc cs ca ib cr en)
 	M  int    // message tag (ib), also its packet identifier
 	H  int    // handler tag (uh dl); 0 = nil
@@ -82,8 +83,8 @@ func (l c17Label) coq(reentered bool) string {
 			d = 1
 		}
 		return fmt.Sprintf("qp %d %d %d", l.K, l.M, d)
-	case "qr":
-		return fmt.Sprintf("qr %d %d", l.K, l.M)
+	case "qr", "qu":
+		return fmt.Sprintf("%s %d %d", l.Op, l.K, l.M)
 	case "uh", "dl":
 		return fmt.Sprintf("%s %d", l.Op, l.H)
 	case "cb":
@@ -118,6 +119,10 @@ func (l c17Label) desc() string {
 		return "RetryClient.Connect:install-section"
 	case "cs":
 		return fmt.Sprintf("BaseClient.Connect(#%d):CONNECT-written", l.K)
+	case "csc":
+		return fmt.Sprintf("BaseClient.Connect(#%d,CleanSession):CONNECT-written", l.K)
+	case "qu":
+		return fmt.Sprintf("PUBREL(#%d,m%d)[nothing stored under that identifier]", l.K, l.M)
 	case "ca":
 		return fmt.Sprintf("CONNACK(#%d)", l.K)
 	case "qp":
@@ -244,6 +249,7 @@ type c17Conn struct {
 
 	mu   sync.Mutex
 	acks map[uint32]chan struct{} // packet type << 16 | packet identifier
+	comp map[uint16]bool          // PUBCOMP written for this identifier
 
 	optArrive, optRelease       chan struct{} // ConnectOption closure: inside BaseClient.Connect, before the reader starts
 	connectWritten              chan struct{} // CONNECT reached the broker
@@ -311,8 +317,20 @@ func (c *c17Conn) optGate() {
 	})
 }
 
+func (c *c17Conn) pubcompSeen(id uint16) bool {
+	c.mu.Lock()
+	defer c.mu.Unlock()
+	return c.comp[id]
+}
+
 func (c *c17Conn) ack(id uint32) {
 	c.mu.Lock()
+	if id>>16 == 0x70 {
+		if c.comp == nil {
+			c.comp = map[uint16]bool{}
+		}
+		c.comp[uint16(id)] = true
+	}
 	ch := c.acks[id]
 	delete(c.acks, id)
 	c.mu.Unlock()
@@ -351,7 +369,7 @@ func (c *c17Conn) sendGroup(connack bool, msgs []c17Label) []bool {
 		case "qp": // QoS 2 PUBLISH alone; processed when its PUBREC reaches the broker
 			b = append(b, encPublish(inMsg{Topic: []byte("t"), ID: uint16(m.M), QoS: 2, Dup: m.Dup, Payload: c17Payload(m)})...)
 			waits[i] = c.expect(0x50<<16 | uint32(m.M))
-		case "qr": // its PUBREL; witnessed by the acknowledgement of the message behind it (PUBCOMP is not awaited)
+		case "qr", "qu": // a PUBREL; witnessed by the acknowledgement of the message behind it (PUBCOMP is not awaited)
 			b = append(b, encID(0x62, uint16(m.M))...)
 		default:
 			b = append(b, encPublish(inMsg{Topic: []byte("t"), ID: uint16(m.M), QoS: m.Q, Dup: m.Dup, Payload: c17Payload(m)})...)
@@ -433,11 +451,12 @@ type c17Bare struct {
 	conns     []*c17Conn
 	cur       int // index of the client given to the latest SetClient, -1 = none
 	processed map[int]bool
+	comp      map[int]bool // message tag -> PUBCOMP was written in answer to its PUBREL
 	problem   string
 }
 
 func c17NewBare() *c17Bare {
-	b := &c17Bare{rc: &mqtt.RetryClient{}, log: &c17Log{}, cur: -1, processed: map[int]bool{}}
+	b := &c17Bare{rc: &mqtt.RetryClient{}, log: &c17Log{}, cur: -1, processed: map[int]bool{}, comp: map[int]bool{}}
 	b.log.reenter = func(h int) { b.rc.Handle(b.log.handler(h)) }
 	return b
 }
@@ -464,19 +483,28 @@ func (b *c17Bare) exec(ls []c17Label) bool {
 			b.cur = l.K
 		case "cb":
 			c := b.conns[b.cur]
+			opts := []mqtt.ConnectOption{func(o *mqtt.ConnectOptions) error {
+				c.optGate()
+				return nil
+			}}
+			for _, n := range ls[i+1:] {
+				if (n.Op == "cs" || n.Op == "csc") && n.K == b.cur {
+					if n.Op == "csc" {
+						opts = append(opts, mqtt.WithCleanSession(true))
+					}
+					break
+				}
+			}
 			go func() {
 				defer close(c.connectDone)
 				defer func() { _ = recover() }()
-				_, _ = b.rc.Connect(ctx, "c17", func(o *mqtt.ConnectOptions) error {
-					c.optGate()
-					return nil
-				})
+				_, _ = b.rc.Connect(ctx, "c17", opts...)
 			}()
 			if !c17WaitCh(c.optArrive) {
 				b.problem = fmt.Sprintf("label %d (%s): RetryClient.Connect did not reach BaseClient.Connect", i, l.desc())
 				return false
 			}
-		case "cs":
+		case "cs", "csc":
 			c := b.conns[l.K]
 			c.readerMayRun = true
 			c17Close(c.optRelease)
@@ -488,7 +516,7 @@ func (b *c17Bare) exec(ls []c17Label) bool {
 				b.problem = fmt.Sprintf("label %d (%s): BaseClient.Done did not return", i, l.desc())
 				return false
 			}
-		case "ca", "ib", "qp", "qr":
+		case "ca", "ib", "qp", "qr", "qu":
 			c := b.conns[l.K]
 			j := i
 			if l.Op == "ca" {
@@ -500,7 +528,13 @@ func (b *c17Bare) exec(ls []c17Label) bool {
 			}
 			done := c.sendGroup(l.Op == "ca", ls[j:e])
 			for x, d := range done {
+				if ls[j+x].Op == "qu" {
+					continue
+				}
 				b.processed[ls[j+x].M] = d
+				if ls[j+x].Op == "qr" {
+					b.comp[ls[j+x].M] = c.pubcompSeen(uint16(ls[j+x].M))
+				}
 				if !d {
 					b.problem = fmt.Sprintf("label %d (%s): the reader never got past this message (no acknowledgement)", j+x, ls[j+x].desc())
 					return false
@@ -531,7 +565,7 @@ func (b *c17Bare) exec(ls []c17Label) bool {
 }
 
 // c17IsMsg: a label that is (part of) an inbound message of the broker
-func c17IsMsg(l c17Label) bool { return l.Op == "ib" || l.Op == "qp" || l.Op == "qr" }
+func c17IsMsg(l c17Label) bool { return l.Op == "ib" || l.Op == "qp" || l.Op == "qr" || l.Op == "qu" }
 
 func (b *c17Bare) cleanup() {
 	for _, c := range b.conns {
@@ -540,7 +574,7 @@ func (b *c17Bare) cleanup() {
 }
 
 // c17Obs renders, per inbound label in schedule order, what was observed.
-func c17Obs(ls []c17Label, hands []c17Hand, processed map[int]bool) (coq []string, desc []string, orderOK bool) {
+func c17Obs(ls []c17Label, hands []c17Hand, processed map[int]bool, comp map[int]bool) (coq []string, desc []string, orderOK bool) {
 	by := map[int][]int{}
 	for _, h := range hands {
 		by[h.M] = append(by[h.M], h.H)
@@ -552,6 +586,10 @@ func c17Obs(ls []c17Label, hands []c17Hand, processed map[int]bool) (coq []strin
 		}
 		hs := by[l.M]
 		switch {
+		case len(hs) == 1 && l.Op == "qr" && !comp[l.M]:
+			coq = append(coq, fmt.Sprintf("on %d %d %d", l.K, l.M, hs[0]))
+			desc = append(desc, fmt.Sprintf("m%d(#%d)->h%d but NO PUBCOMP", l.M, l.K, hs[0]))
+			want = append(want, l.M)
 		case len(hs) == 1:
 			coq = append(coq, fmt.Sprintf("oh %d %d %d", l.K, l.M, hs[0]))
 			desc = append(desc, fmt.Sprintf("m%d(#%d)->h%d", l.M, l.K, hs[0]))
@@ -565,6 +603,20 @@ func c17Obs(ls []c17Label, hands []c17Hand, processed map[int]bool) (coq []strin
 		default:
 			coq = append(coq, fmt.Sprintf("os %d %d", l.K, l.M))
 			desc = append(desc, fmt.Sprintf("m%d(#%d) never processed", l.M, l.K))
+		}
+	}
+	// a hand-over of something no hand-over label stands for (e.g. for a PUBREL that should find nothing)
+	evl := map[int]bool{}
+	for _, l := range ls {
+		if l.Op == "ib" || l.Op == "qr" {
+			evl[l.M] = true
+		}
+	}
+	for _, h := range hands {
+		if !evl[h.M] {
+			coq = append(coq, fmt.Sprintf("om %d %d", h.K, h.M))
+			desc = append(desc, fmt.Sprintf("m%d(#%d)->h%d: unexpected hand-over", h.M, h.K, h.H))
+			evl[h.M] = true
 		}
 	}
 	// handler calls happen in the order the messages were sent (per connection a stream; across
@@ -596,11 +648,33 @@ type c17Gen struct {
 	nextM  int
 	nextH  int
 	labels []c17Label
-	pend   map[int][]int // per client: QoS 2 messages stored, PUBREL not sent yet
+	// mirror of the model's inbound stores: which store object a client uses, what each store holds
+	cstore   []int
+	stores   []map[int]bool
+	released []int // identifiers released earlier (a repeated PUBREL must find nothing)
+}
+
+func (g *c17Gen) storeOf(k int) map[int]bool {
+	for len(g.cstore) <= k { // loop family: every client of the session uses store 0
+		g.cstore = append(g.cstore, 0)
+	}
+	for len(g.stores) <= g.cstore[k] {
+		g.stores = append(g.stores, map[int]bool{})
+	}
+	return g.stores[g.cstore[k]]
+}
+
+func (g *c17Gen) pending(k int) []int {
+	var out []int
+	for m := range g.storeOf(k) {
+		out = append(out, m)
+	}
+	sort.Ints(out)
+	return out
 }
 
 func c17NewGen(r *rand.Rand) *c17Gen {
-	return &c17Gen{r: r, cur: -1, nextM: 1, nextH: 1, pend: map[int][]int{}}
+	return &c17Gen{r: r, cur: -1, nextM: 1, nextH: 1}
 }
 
 func (g *c17Gen) add(l c17Label) {
@@ -608,8 +682,21 @@ func (g *c17Gen) add(l c17Label) {
 	case "dl":
 		g.phase = append(g.phase, 0)
 		g.ret = append(g.ret, false)
+		g.cstore = append(g.cstore, len(g.stores))
+		g.stores = append(g.stores, map[int]bool{})
 	case "sc":
+		if g.cur >= 0 && g.cur != l.K {
+			g.cstore[l.K] = g.cstore[g.cur] // the new client continues with the store of the one it replaces
+		}
 		g.cur = l.K
+	case "csc":
+		g.phase[l.K] = 2
+		g.stores[g.cstore[l.K]] = map[int]bool{} // clean session: forget
+	case "qp":
+		g.storeOf(l.K)[l.M] = true
+	case "qr":
+		delete(g.storeOf(l.K), l.M)
+		g.released = append(g.released, l.M)
 	case "cb":
 		g.phase[g.cur] = 1
 	case "cs":
@@ -620,7 +707,6 @@ func (g *c17Gen) add(l c17Label) {
 		g.ret[l.K] = true
 	case "en":
 		g.phase[l.K] = 4
-		delete(g.pend, l.K) // the subBuffer dies with the connection
 	}
 	g.labels = append(g.labels, l)
 }
@@ -643,17 +729,24 @@ func (g *c17Gen) msgs(k, n int) {
 	cnt := 1 + g.r.Intn(n)
 	for i := 0; i < cnt; i++ {
 		// QoS 2 exchanges whose PUBLISH and PUBREL are separate steps (anything may come between them)
-		if p := g.pend[k]; len(p) > 0 && g.r.Intn(3) == 0 {
-			x := g.r.Intn(len(p))
-			g.add(c17Label{Op: "qr", K: k, M: p[x]})
-			g.pend[k] = append(append([]int{}, p[:x]...), p[x+1:]...)
+		// (the store is session state: the PUBLISH may have arrived on an earlier connection)
+		if p := g.pending(k); len(p) > 0 && g.r.Intn(3) == 0 {
+			g.add(c17Label{Op: "qr", K: k, M: p[g.r.Intn(len(p))]})
 			g.add(c17Label{Op: "ib", K: k, M: g.nextM, Q: 1})
 			g.nextM++
 			continue
 		}
+		if len(g.released) > 0 && g.r.Intn(12) == 0 {
+			// a repeated PUBREL for a message that was released already: nothing may happen
+			if m := g.released[g.r.Intn(len(g.released))]; !g.storeOf(k)[m] {
+				g.add(c17Label{Op: "qu", K: k, M: m})
+				g.add(c17Label{Op: "ib", K: k, M: g.nextM, Q: 1})
+				g.nextM++
+				continue
+			}
+		}
 		if g.r.Intn(6) == 0 {
 			g.add(c17Label{Op: "qp", K: k, M: g.nextM, Dup: g.r.Intn(3) == 0})
-			g.pend[k] = append(g.pend[k], g.nextM)
 			g.nextM++
 			continue
 		}
@@ -713,7 +806,13 @@ func (g *c17Gen) random(n int, overlap bool) {
 			opts = append(opts, opt{6, func() { g.add(c17Label{Op: "cb"}) }})
 		}
 		if ks := g.with(1); len(ks) > 0 {
-			opts = append(opts, opt{6, func() { g.add(c17Label{Op: "cs", K: g.pick(ks)}) }})
+			opts = append(opts, opt{6, func() {
+				o := "cs"
+				if g.r.Intn(6) == 0 {
+					o = "csc"
+				}
+				g.add(c17Label{Op: o, K: g.pick(ks)})
+			}})
 		}
 		if ks := g.with(2); len(ks) > 0 {
 			opts = append(opts, opt{6, func() {
@@ -783,6 +882,15 @@ func c17Skeleton(which int) []c17Label {
 		return []c17Label{{Op: "dl"}, op("sc", 0), {Op: "cb"}, op("cs", 0), op("ca", 0), ib(0, 1, 1), op("cr", 0), qp(0, 2, false), qr(0, 2), ib(0, 3, 1),
 			qp(0, 4, false), op("en", 0), {Op: "dl"}, op("sc", 1), {Op: "cb"}, op("cs", 1), op("ca", 1), {Op: "ib", K: 1, M: 5, Q: 1, Dup: true}, qp(1, 6, true), qr(1, 6),
 			ib(1, 7, 1), op("cr", 1), qp(1, 8, false), qr(1, 8), ib(1, 9, 1)}
+	case 4: // received QoS 2 state is SESSION state: PUBLISH stored on connection 0 (PUBREC sent), cut; the broker
+		// sends only PUBREL: behind the next CONNACK in the same send (m2), after other messages and across
+		// TWO reconnects (m3), then repeated (must find nothing)
+		qp := func(k, m int) c17Label { return c17Label{Op: "qp", K: k, M: m} }
+		qr := func(k, m int) c17Label { return c17Label{Op: "qr", K: k, M: m} }
+		return []c17Label{{Op: "dl"}, op("sc", 0), {Op: "cb"}, op("cs", 0), op("ca", 0), ib(0, 1, 1), op("cr", 0), qp(0, 2), qp(0, 3), op("en", 0),
+			{Op: "dl"}, op("sc", 1), {Op: "cb"}, op("cs", 1), op("ca", 1), qr(1, 2), ib(1, 4, 1), op("cr", 1), op("en", 1),
+			{Op: "dl"}, op("sc", 2), {Op: "cb"}, op("cs", 2), op("ca", 2), ib(2, 5, 1), op("cr", 2), qr(2, 3), ib(2, 6, 1),
+			{Op: "qu", K: 2, M: 3}, ib(2, 7, 1), {Op: "qu", K: 2, M: 2}, ib(2, 8, 1)}
 	default: // SetClient while connection 0 is still read (bare RetryClient only)
 		return []c17Label{{Op: "dl"}, op("sc", 0), {Op: "cb"}, op("cs", 0), op("ca", 0), ib(0, 1, 1), op("cr", 0), {Op: "dl"}, op("sc", 1),
 			ib(0, 2, 1), {Op: "cb"}, ib(0, 3, 1), op("cs", 1), op("ca", 1), ib(1, 4, 1), ib(0, 5, 1), op("cr", 1), op("en", 0), ib(1, 6, 1)}
@@ -797,6 +905,13 @@ func c17Normalise(ls []c17Label) []c17Label {
 	sync := 1000
 	for i, l := range ls {
 		last := i+1 >= len(ls) || !c17IsMsg(ls[i+1]) || ls[i+1].K != l.K
+		if l.Op == "qu" && last {
+			l2 := l
+			out = append(out, l2)
+			sync++
+			out = append(out, c17Label{Op: "ib", K: l.K, M: sync, Q: 1})
+			continue
+		}
 		if l.Op == "ib" && l.Q == 0 && last {
 			l.Q = 1
 		}
@@ -838,9 +953,11 @@ var errC17Stop = errors.New("c17: no further connection in this scenario")
 // NewReconnectClient, after it, while connected — is the registered handler of the model exactly like
 // one registered through the returned value. own = 1: every Handle call goes through rc;
 // own = 2: alternately through rc and through the returned ReconnectClient.
-func c17RunLoop(pre []int, eps []c17Epoch, own int) (labels []c17Label, g *c17Log, processed map[int]bool, problem string) {
+// clean: every Connect carries WithCleanSession(true) (label csc instead of cs).
+func c17RunLoop(pre []int, eps []c17Epoch, own int, clean bool) (labels []c17Label, g *c17Log, processed map[int]bool, comp map[int]bool, problem string) {
 	g = &c17Log{}
 	processed = map[int]bool{}
+	comp = map[int]bool{}
 	dialArrive := make(chan struct{})
 	dialRelease := make(chan *c17Conn)
 	stop := make(chan struct{})
@@ -903,7 +1020,7 @@ func c17RunLoop(pre []int, eps []c17Epoch, own int) (labels []c17Label, g *c17Lo
 		// the handlers registered before Connect are registered on rc before the ReconnectClient exists
 		for _, h := range pre {
 			if !handle(h) {
-				return labels, g, processed, "Handle on the application's RetryClient did not return"
+				return labels, g, processed, comp, "Handle on the application's RetryClient did not return"
 			}
 		}
 		pre = nil
@@ -911,7 +1028,7 @@ func c17RunLoop(pre []int, eps []c17Epoch, own int) (labels []c17Label, g *c17Lo
 	var err error
 	cli, err = mqtt.NewReconnectClient(dialer, opts...)
 	if err != nil {
-		return nil, g, processed, "NewReconnectClient: " + err.Error()
+		return nil, g, processed, comp, "NewReconnectClient: " + err.Error()
 	}
 	handles := func(hs []int, where string) bool {
 		for _, h := range hs {
@@ -939,7 +1056,11 @@ func c17RunLoop(pre []int, eps []c17Epoch, own int) (labels []c17Label, g *c17Lo
 		defer close(connectDone)
 		ctx, cancel := context.WithTimeout(context.Background(), 20*c17Wait)
 		defer cancel()
-		_, _ = cli.Connect(ctx, "c17", opt)
+		if clean {
+			_, _ = cli.Connect(ctx, "c17", opt, mqtt.WithCleanSession(true))
+		} else {
+			_, _ = cli.Connect(ctx, "c17", opt)
+		}
 	}()
 	var conns []*c17Conn
 	disconnected := false
@@ -961,7 +1082,13 @@ func c17RunLoop(pre []int, eps []c17Epoch, own int) (labels []c17Label, g *c17Lo
 	sendGroup := func(c *c17Conn, connack bool, grp []c17Label) bool {
 		done := c.sendGroup(connack, grp)
 		for x, d := range done {
+			if grp[x].Op == "qu" {
+				continue
+			}
 			processed[grp[x].M] = d
+			if grp[x].Op == "qr" {
+				comp[grp[x].M] = c.pubcompSeen(uint16(grp[x].M))
+			}
 			if !d {
 				problem = fmt.Sprintf("%s: the reader never got past this message (no acknowledgement)", grp[x].desc())
 				return false
@@ -1005,7 +1132,11 @@ func c17RunLoop(pre []int, eps []c17Epoch, own int) (labels []c17Label, g *c17Lo
 			problem = fmt.Sprintf("connection #%d: BaseClient.Done did not return", k)
 			return
 		}
-		labels = append(labels, c17Label{Op: "cs", K: k})
+		if clean {
+			labels = append(labels, c17Label{Op: "csc", K: k})
+		} else {
+			labels = append(labels, c17Label{Op: "cs", K: k})
+		}
 		if !handles(ep.AtConn, "CONNECT written, before CONNACK") {
 			return
 		}
@@ -1088,7 +1219,7 @@ func c17RunLoop(pre []int, eps []c17Epoch, own int) (labels []c17Label, g *c17Lo
 	return
 }
 
-func (g *c17Gen) loopScenario(nEp int) (pre []int, eps []c17Epoch) {
+func (g *c17Gen) loopScenario(nEp int, clean bool) (pre []int, eps []c17Epoch) {
 	hs := func(p int) []int {
 		var out []int
 		for g.r.Intn(100) < p {
@@ -1102,6 +1233,10 @@ func (g *c17Gen) loopScenario(nEp int) (pre []int, eps []c17Epoch) {
 		ep := c17Epoch{AtDial: hs(30), AtOpt: hs(30), AtConn: hs(30), AtActive: hs(30), SendFirst: g.r.Intn(2) == 0}
 		if g.r.Intn(6) == 0 {
 			ep.DialH = 90 + g.r.Intn(3)
+		}
+		g.storeOf(k)
+		if clean {
+			g.stores[0] = map[int]bool{} // every Connect asks for a clean session: the store is emptied
 		}
 		if g.r.Intn(6) == 0 && k < nEp-1 {
 			ep.Refuse = true
@@ -1207,7 +1342,7 @@ func c17StressRound(newH, spinA, spinB int) (pre, win, post []c17Label, coq, des
 		}
 	}
 	all := append(append(append([]c17Label{}, pre...), win...), post...)
-	coq, desc, _ = c17Obs(all, g.snapshot(), processed)
+	coq, desc, _ = c17Obs(all, g.snapshot(), processed, nil)
 	return
 }
 
@@ -1285,7 +1420,7 @@ func runC17(cfg *runCfg) error {
 			m.ImplViolations = append(m.ImplViolations, map[string]interface{}{"family": "seq", "kind": kind, "schedule": c17Desc(ls), "stuck": b.problem})
 			return
 		}
-		coq, desc, ord := c17Obs(ls, b.log.snapshot(), b.processed)
+		coq, desc, ord := c17Obs(ls, b.log.snapshot(), b.processed, b.comp)
 		c := map[string]interface{}{"kind": kind, "client": "bare RetryClient", "schedule": c17Desc(ls), "deliveries": desc}
 		if !ord {
 			m.ImplViolations = append(m.ImplViolations, map[string]interface{}{"family": "seq", "what": "handler calls out of order", "case": c})
@@ -1301,7 +1436,7 @@ func runC17(cfg *runCfg) error {
 	}
 
 	// ---- seq: Handle inserted at every position (and every pair of positions) of two skeletons
-	for which := 0; which < 4; which++ {
+	for which := 0; which < 5; which++ {
 		sk := c17Skeleton(which)
 		for _, first := range []int{1, 0} { // with / without a handler registered before everything
 			base := sk
@@ -1338,19 +1473,19 @@ func runC17(cfg *runCfg) error {
 	}
 
 	// ---- loop: the real ReconnectClient
-	addLoop := func(pre []int, eps []c17Epoch, own int, kind string) {
+	addLoop := func(pre []int, eps []c17Epoch, own int, clean bool, kind string) {
 		if c17GiveUp() {
 			stats["skipped_after_expired_waits"]++
 			return
 		}
 		t0 := time.Now()
-		ls, g, processed, problem := c17RunLoop(pre, eps, own)
+		ls, g, processed, comp, problem := c17RunLoop(pre, eps, own, clean)
 		c17Slow("loop", t0, ls, problem)
 		if problem != "" {
-			m.ImplViolations = append(m.ImplViolations, map[string]interface{}{"family": "loop", "kind": kind, "with_retry_client_mode": own, "schedule": c17Desc(ls), "stuck": problem})
+			m.ImplViolations = append(m.ImplViolations, map[string]interface{}{"family": "loop", "kind": kind, "with_retry_client_mode": own, "clean_session": clean, "schedule": c17Desc(ls), "stuck": problem})
 			return
 		}
-		coq, desc, ord := c17Obs(ls, g.snapshot(), processed)
+		coq, desc, ord := c17Obs(ls, g.snapshot(), processed, comp)
 		c := map[string]interface{}{"kind": kind, "client": []string{"ReconnectClient (default RetryClient)", "ReconnectClient built with WithRetryClient(rc); every Handle call through rc",
 			"ReconnectClient built with WithRetryClient(rc); Handle calls alternately through rc and through the returned client"}[own], "schedule": c17Desc(ls), "deliveries": desc}
 		if !ord {
@@ -1362,6 +1497,9 @@ func runC17(cfg *runCfg) error {
 		count(ls)
 		stats["loop_"+kind]++
 		stats[fmt.Sprintf("loop_retryclient_mode%d", own)]++
+		if clean {
+			stats["loop_clean_session"]++
+		}
 		if len(m.Samples) < 4 && kind == "random" && len(eps) >= 3 {
 			m.Samples = append(m.Samples, c)
 		}
@@ -1385,6 +1523,8 @@ func runC17(cfg *runCfg) error {
 		pre := next(0)
 		var eps []c17Epoch
 		mm := 1
+		clean := (mask/3)%5 == 4 // every Connect with CleanSession: the stored QoS 2 message is forgotten
+		stored := 0              // identifier of the QoS 2 PUBLISH connection 0 stored and never released
 		for k := 0; k < 2; k++ {
 			ep := c17Epoch{AtDial: next(1 + 5*k), AtOpt: next(2 + 5*k), AtConn: next(3 + 5*k), SendFirst: mask%2 == 0}
 			if k == 1 && (mask&0x7F == 0 || mask%5 == 0) {
@@ -1396,6 +1536,12 @@ func runC17(cfg *runCfg) error {
 				// a QoS 1 PUBLISH with DUP=1 and the QoS 2 PUBLISH that connection 0 never released (DUP=1), then its PUBREL
 				ep.Burst = append(ep.Burst, c17Label{Op: "ib", K: k, M: mm + 6, Q: 1, Dup: true},
 					c17Label{Op: "qp", K: k, M: mm + 7, Dup: true}, c17Label{Op: "qr", K: k, M: mm + 7}, c17Label{Op: "ib", K: k, M: mm + 8, Q: 1})
+				// ... and, for the QoS 2 PUBLISH whose PUBREC the broker got on connection 0, ONLY the PUBREL
+				rel := "qr"
+				if clean {
+					rel = "qu" // forgotten by the clean-session connect: the PUBREL finds nothing
+				}
+				ep.Burst = append(ep.Burst, c17Label{Op: rel, K: k, M: stored}, c17Label{Op: "ib", K: k, M: mm + 9, Q: 1})
 			}
 			ep.AtActive = next(4 + 5*k)
 			// after Connect: a message; a QoS 2 PUBLISH alone; the "after Connect" Handle call INSIDE that
@@ -1414,16 +1560,21 @@ func runC17(cfg *runCfg) error {
 			if k == 0 {
 				// ... and a QoS 2 PUBLISH whose PUBREL connection 0 never gets (cut): redelivered on connection 1
 				ep.Later = append(ep.Later, []c17Label{{Op: "qp", K: k, M: mm + 5}})
+				stored = mm + 5
+			}
+			if k == 1 {
+				// the PUBREL once more: nothing may be handed over twice
+				ep.Later = append(ep.Later, []c17Label{{Op: "qu", K: k, M: stored}, {Op: "ib", K: k, M: mm + 10, Q: 1}})
 			}
 			if k == 1 && (mask/3)%4 == 1 {
 				// ... and the one that receives the QoS 1 message right behind the second CONNACK registers h21
 				// (the reconnect loop is still inside Connect)
 				ep.Burst[1].Re, ep.Burst[1].H = true, 21
 			}
-			mm += 9
+			mm += 11
 			eps = append(eps, ep)
 		}
-		addLoop(pre, eps, (mask/3)%3, "enumerated")
+		addLoop(pre, eps, (mask/3)%3, clean, "enumerated")
 	}
 	nLoop := 200
 	if cfg.tier == "thorough" {
@@ -1433,8 +1584,9 @@ func runC17(cfg *runCfg) error {
 	}
 	for i := 0; i < nLoop; i++ {
 		g := c17NewGen(r)
-		pre, eps := g.loopScenario(1 + r.Intn(6))
-		addLoop(pre, eps, r.Intn(3), "random")
+		clean := r.Intn(6) == 0
+		pre, eps := g.loopScenario(1+r.Intn(6), clean)
+		addLoop(pre, eps, r.Intn(3), clean, "random")
 	}
 
 	// ---- race: Handle truly concurrent with a window of steps on a bare RetryClient
@@ -1504,7 +1656,7 @@ func runC17(cfg *runCfg) error {
 			m.ImplViolations = append(m.ImplViolations, map[string]interface{}{"family": "race", "kind": kind, "schedule": c17Desc(all), "concurrent": c17Label{Op: "uh", H: newH}.desc(), "stuck": b.problem})
 			continue
 		}
-		coq, desc, _ := c17Obs(all, b.log.snapshot(), b.processed)
+		coq, desc, _ := c17Obs(all, b.log.snapshot(), b.processed, b.comp)
 		c := map[string]interface{}{"kind": kind, "client": "bare RetryClient", "before": c17Desc(pre), "concurrent_with_window": c17Label{Op: "uh", H: newH}.desc(),
 			"window": c17Desc(win), "after": c17Desc(post), "deliveries": desc}
 		race.cases = append(race.cases, cTuple(c17Coq(pre, b.log), fmt.Sprint(newH), c17Coq(win, b.log), c17Coq(post, b.log), cListInline(coq)))
